@@ -383,10 +383,11 @@ func newEnc(prog *ssa.Program, fn *ssa.Function, db *ContractDB) *Enc {
 	return &Enc{prog: prog, fn: fn, db: db, con: db.byFunc[fname(fn)], declared: map[string]bool{},
 		vals: map[ssa.Value]*Val{}, locs: map[ssa.Value]*Loc{}, endState: map[*ssa.BasicBlock]State{},
 		reach: map[*ssa.BasicBlock]string{}, kindN: map[string]int{}, tags: map[string]int{},
-		params: map[string]*Val{}, effects: map[*ssa.Function]*effect{}, ranges: map[*ssa.Range]*rangeInfo{}, freeRef: map[string]*Val{}, merges: map[int]*mergeInfo{}, preserved: map[int]*preserveInfo{}, pendingFrame: map[string]string{}, pendingOld: map[string]string{}, birth: map[string][2]string{}, assertHit: map[int]bool{}, dyn: map[ssa.Value]types.Type{}, ghostSites: map[string]bool{}, siteResults: map[string]*Val{}, lastOrd: map[string]int{}}
+		params: map[string]*Val{}, effects: map[*ssa.Function]*effect{}, ranges: map[*ssa.Range]*rangeInfo{}, freeRef: map[string]*Val{}, merges: map[int]*mergeInfo{}, preserved: map[int]*preserveInfo{}, pendingFrame: map[string]string{}, pendingOld: map[string]string{}, birth: map[string][2]string{}, assertHit: map[int]bool{}, dyn: map[ssa.Value]types.Type{}, ghostSites: map[string]bool{}, iterSites: map[string]int{}, loopWM: map[int]string{}, siteResults: map[string]*Val{}, lastOrd: map[string]int{}}
 }
 
 var reachedRe = regexp.MustCompile(`reached\("([^"]+)"\)`)
+var thisiterRe = regexp.MustCompile(`thisiter\("([^"]+)"\)`)
 
 func (e *Enc) run() {
 	if e.con != nil {
@@ -401,6 +402,13 @@ func (e *Enc) run() {
 		scan(e.con.Ensures)
 		for _, a := range e.con.Asserts {
 			scan([]*Clause{a.C})
+		}
+		for n, ls := range e.con.Loops {
+			for _, c := range ls.Steps {
+				for _, m := range thisiterRe.FindAllStringSubmatch(c.Src, -1) {
+					e.iterSites[m[1]] = n
+				}
+			}
 		}
 	}
 	order := e.findLoops()
@@ -938,6 +946,33 @@ func (e *Enc) loopEdge(li *loopInfo, p *ssa.BasicBlock, kind string) {
 		e.kindN[kind+cd.desc]++
 		e.obls = append(e.obls, o)
 	}
+	// step clauses: must hold whenever control returns to the loop head (not at entry, never assumed)
+	if e.con != nil && kind == "inv-step" {
+		if ls := e.con.Loops[li.ordinal]; ls != nil {
+			for _, sc := range ls.Steps {
+				if !e.active(sc) {
+					continue
+				}
+				stc := st
+				env := &Env{e: e, st: &stc, old: &e.entry, vars: e.params, sub: sub, header: li.header}
+				desc := fmt.Sprintf("loop%d:%s", li.ordinal, shorten(sc.Src))
+				o := &Obligation{
+					Name:    fmt.Sprintf("%s/%s#step:%s@%d", e.mod, e.fnName(), desc, e.kindN["step"+desc]),
+					Owned:   true,
+					Block:   p.Index,
+					Kind:    "step",
+					Desc:    desc,
+					Clause:  sc,
+					Pos:     e.prog.Fset.Position(p.Instrs[len(p.Instrs)-1].Pos()),
+					NCons:   len(e.cons),
+					Goal:    imp(e.edgeCond(p, li.header), env.formula(sc.E)),
+					Houdini: -1,
+				}
+				e.kindN["step"+desc]++
+				e.obls = append(e.obls, o)
+			}
+		}
+	}
 }
 
 func (e *Enc) loopHeader(b *ssa.BasicBlock, li *loopInfo, fwd []*ssa.BasicBlock, st *State) {
@@ -1272,6 +1307,7 @@ func (e *Enc) loopHeader(b *ssa.BasicBlock, li *loopInfo, fwd []*ssa.BasicBlock,
 		e.assume(app(">=", nw, old))
 		arrSorts["G|wm"] = "Int"
 		st.m["G|wm"] = nw
+		e.loopWM[li.ordinal] = nw
 	}
 	// ghost "reached" flags of call sites inside the loop are unknown at the header
 	for site := range e.ghostSites {
@@ -1283,6 +1319,9 @@ func (e *Enc) loopHeader(b *ssa.BasicBlock, li *loopInfo, fwd []*ssa.BasicBlock,
 		for blk := range li.body {
 			for _, in := range blk.Instrs {
 				if c, ok := in.(*ssa.Call); ok && siteName(c) == base {
+					inLoop = true
+				}
+				if mu, ok := in.(*ssa.MapUpdate); ok && base == "mapupdate" && fmt.Sprintf("mapupdate#%d", e.mapUpdateOrdinal(mu)) == site {
 					inLoop = true
 				}
 				if s, ok := in.(*ssa.Store); ok && strings.HasPrefix(base, "store:") {
@@ -1298,6 +1337,13 @@ func (e *Enc) loopHeader(b *ssa.BasicBlock, li *loopInfo, fwd []*ssa.BasicBlock,
 		if inLoop {
 			arrSorts["G|reached|"+site] = "Bool"
 			st.m["G|reached|"+site] = e.fresh("ghost.reached", "Bool")
+		}
+	}
+	// per-iteration flags start every iteration unset
+	for site, n := range e.iterSites {
+		if n == li.ordinal {
+			arrSorts["G|iter|"+site] = "Bool"
+			st.m["G|iter|"+site] = "false"
 		}
 	}
 	// fresh phis
